@@ -11,8 +11,8 @@ leaf generators once `self.depth >= cfg.limits.max_depth` (or `only_leaves`), an
 
 ## The table (`Skeleton`)
 * `dispatch`: the three branches of `get_generators` in source order — condition text and the
-  generator methods the branch can return (`const:<f>` = a constant generator of
-  `src/generators/generators.py`, a leaf).
+  generator methods the branch can return (`const:<f>`, listed in `consts`, = a constant generator
+  of `src/generators/generators.py`, a leaf).
 * `gens`: per dispatched generator method its *flattened* sites: every call path through helper
   methods that ends in a `generate_expr` call, with `off` = sum of the `self.depth += k` in force
   along the path, `cnt` = number of calls on the path made under a raised counter (offset > 0),
@@ -33,7 +33,7 @@ A *shape* is the tree of generator calls of one region; an edge carries `cnt`.  
   child comes from one of its sites, is entered at ANY depth `d' ≥ d + off` (callees may leak the
   counter upwards, never downwards), with `only_leaves` as the site says, void as the site says,
   and — at a site with a cut — only if `d' ≤ K * m` (otherwise the child is the bottom constant, or
-  the expression of a primitive type: a leaf).
+  the expression of a primitive type: a leaf; a leaf child is admitted at every site).
 `wdepth` = the largest number of raised-counter calls on a path of the shape.
 
 What is NOT bounded by the counter, in the code and hence here: chains through edges with
@@ -59,10 +59,11 @@ deriving Repr, DecidableEq, Inhabited
 structure FGen where
   name : String
   sites : List FSite
-deriving Repr, Inhabited
+deriving Repr, DecidableEq, Inhabited
 
 structure Skeleton where
   dispatch : List (String × List (String × String))
+  consts : List String
   gens : List FGen
   roots : List FGen
   wrapperSites : List FSite
@@ -132,8 +133,8 @@ def admits (sk : Skeleton) (m : Nat) : Nat → Bool → Bool → Shape → Prop
 def admitsKids (sk : Skeleton) (m : Nat) (sites : List FSite) : Nat → Bool → Kids → Prop
   | _, _, .nil => True
   | d, ol, .cons c sh rest =>
-      (∃ s, s ∈ sites ∧ s.cnt = c ∧ ∃ d' v', d + s.off ≤ d' ∧ cutOK s m d' ∧ voidOK s v' ∧
-          admits sk m d' (olNext s.ol ol) v' sh) ∧
+      (∃ s, s ∈ sites ∧ s.cnt = c ∧ (sh = .leaf ∨ ∃ d' v', d + s.off ≤ d' ∧ cutOK s m d' ∧ voidOK s v' ∧
+          admits sk m d' (olNext s.ol ol) v' sh)) ∧
       admitsKids sk m sites d ol rest
 end
 
@@ -167,10 +168,10 @@ def genSiteOK (C : Nat) (s : FSite) : Bool :=
 
 /-- in a leaf generator: never `only_leaves=False`, and a raised-counter recursion is cut -/
 def leafSiteOK (K : Nat) (s : FSite) : Bool :=
-  s.ol != "False" && (s.cnt == 0 || match cutBound s with | some k => decide (k ≤ K) | none => false)
+  (s.ol == "True" || s.ol == "pass") && (s.cnt == 0 || match cutBound s with | some k => decide (k ≤ K) | none => false)
 
 def dispatchNameOK (sk : Skeleton) (n : String) : Bool :=
-  n.startsWith "const:" || sk.gens.any (·.name == n)
+  sk.consts.contains n || sk.gens.any (·.name == n)
 
 def SkeletonOK (sk : Skeleton) : Bool :=
   sk.problems.isEmpty && sk.otherWrites == 0 && sk.wrapperSites.isEmpty &&
